@@ -38,7 +38,11 @@ type caseIn struct {
 	ID  int    `json:"id"`
 	Src string `json:"src"` // family / "random" / "probe"
 	Rep int64  `json:"rep"` // selects the representative string of every class
-	V   AVal   `json:"v"`
+	// dynamic atoms of this case (random part): strings by name -> hex bytes, numbers by name ->
+	// text handed to the real constructor vals.ParseNum
+	DStr map[string]string `json:"dstr,omitempty"`
+	DNum map[string]string `json:"dnum,omitempty"`
+	V    AVal              `json:"v"`
 }
 
 type runRec struct {
@@ -158,7 +162,29 @@ type backVal struct {
 
 func runCase(c *lib.Ctx, ev *evalerT, ci caseIn) (caseRec, error) {
 	rec := caseRec{ID: ci.ID, Chk: ci.Src == "random" || ci.Src == "probe", V: listing(ci.V)}
-	rs := repSel{ci.Rep}
+	rs := repSel{seed: ci.Rep, dstr: map[string]string{}, dnum: map[string]any{}}
+	for n, h := range ci.DStr {
+		b, err := hex.DecodeString(h)
+		if err != nil {
+			return rec, lib.Infra("case %d: %v", ci.ID, err)
+		}
+		if c := (repSel{seed: ci.Rep}).class(string(b)); c != "?" {
+			return rec, lib.Infra("case %d: dynamic string %q is the representative of %s", ci.ID, b, c)
+		}
+		rs.dstr[n] = string(b)
+	}
+	for n, t := range ci.DNum {
+		x := vals.ParseNum(t)
+		if x == nil {
+			return rec, lib.Infra("case %d: vals.ParseNum(%q) failed", ci.ID, t)
+		}
+		for _, na := range numAtoms {
+			if sameNum(numReal[na.name], x) {
+				return rec, lib.Infra("case %d: dynamic number %s is the pool atom %s", ci.ID, t, na.name)
+			}
+		}
+		rs.dnum[n] = x
+	}
 	hs := histories(ci.V)
 	reals := make([]any, len(hs))
 	var texts []string
@@ -455,13 +481,14 @@ func run(c *lib.Ctx) error {
 	maxSize, maxDepth := 0, 0
 	for i := 0; i < nRand; i++ {
 		v := g.draw()
+		ds, dn := g.takeDyn()
 		if s := size(v); s > maxSize {
 			maxSize = s
 		}
 		if d := depth(v); d > maxDepth {
 			maxDepth = d
 		}
-		cases = append(cases, caseIn{Src: "random", V: v})
+		cases = append(cases, caseIn{Src: "random", V: v, DStr: ds, DNum: dn})
 	}
 	for i := range cases {
 		cases[i].ID = i + 1
